@@ -288,7 +288,7 @@ def c12_5(cx):
         src = cx.arg(nx, 0)
         if "QueryEdge::input" in src:
             cx.flow(w, src, [r"^<Map as std::iter::IntoIterator>::into_iter\(<FilterMap as std::iter::Iterator>::map\(" + inputs + r", fn:zalsa_local::QueryEdge::input\)\)$"], [r"rev|skip|take"], "copy loop: over every input of the callee's memo", nx)
-            same = CallIs(r"^std::cmp::PartialEq::eq$", True, desc="flattened[expected_index] == Some(&input)")
+            same = Cmp(r"^indexmap::IndexSet::<T, S>::get_index\(", "==", r"^Option::Some\{0: ", desc="flattened[expected_index] == Some(&input)")
             cx.for_each(w, nx, insfs, "walker/copy", allow_skip=[same])
             cx.only_if(w, nx, VariantIn(r"^\$4$", {"Fixpoint", "FallbackImmediate"}, desc="callee has cycle handling"), "inputs are copied (not recursed into) only for callees that flattened their own origin")
             cx.require(len(eq) == 1, "one equality test in the copy loop")
